@@ -12,17 +12,17 @@ import (
 )
 
 type Rec struct {
-	K       string             `json:"k"` // case | step | viol | done | end | inconclusive
-	Case    int                `json:"case,omitempty"`
-	Desc    interface{}        `json:"desc,omitempty"`
-	Sig     string             `json:"sig,omitempty"`
-	Detail  string             `json:"detail,omitempty"`
-	Witness interface{}        `json:"witness,omitempty"`
-	Shape   string             `json:"shape,omitempty"`
-	NonTriv bool               `json:"nontrivial,omitempty"`
-	Stats   map[string]int64   `json:"stats,omitempty"`
+	K       string              `json:"k"` // case | step | viol | done | end | inconclusive
+	Case    int                 `json:"case,omitempty"`
+	Desc    interface{}         `json:"desc,omitempty"`
+	Sig     string              `json:"sig,omitempty"`
+	Detail  string              `json:"detail,omitempty"`
+	Witness interface{}         `json:"witness,omitempty"`
+	Shape   string              `json:"shape,omitempty"`
+	NonTriv bool                `json:"nontrivial,omitempty"`
+	Stats   map[string]int64    `json:"stats,omitempty"`
 	Sets    map[string][]string `json:"sets,omitempty"`
-	Samples []interface{}      `json:"samples,omitempty"`
+	Samples []interface{}       `json:"samples,omitempty"`
 }
 
 type W struct {
